@@ -259,6 +259,13 @@ fn c06_containers(ctx: &mut Ctx, recs: &[Rec], ser: Ser, case_no: &mut u64, full
         let c = format!("gz1-l{}", level);
         c06_read(ctx, recs, ser, &c, &g, *case_no, base_argv(&c));
     }
+    // an empty member at the end (every bgzip file ends with an empty EOF block) and at the beginning
+    for cont in ["gz-emptylast", "gz-emptyfirst", "gz-emptylast-l0"] {
+        *case_no += 1;
+        let g = container_bytes(&text, &bounds, cont);
+        c06_read(ctx, recs, ser, cont, &g, *case_no, base_argv(cont));
+        ctx.rep.count("files.multi_member", 1);
+    }
     // member boundary at every record boundary
     for (bi, &b) in bounds.iter().enumerate() {
         for level in [6u32, 0] {
@@ -306,6 +313,15 @@ fn container_bytes(text: &[u8], bounds: &[usize], cont: &str) -> Vec<u8> {
     }
     if cont == "gz3-rec" {
         return gz_members(&[&text[..bounds[0]], &text[bounds[0]..bounds[1]], &text[bounds[1]..]], 6);
+    }
+    if cont == "gz-emptylast" {
+        return gz_members(&[text, &[]], 6);
+    }
+    if cont == "gz-emptylast-l0" {
+        return gz_members(&[text, &[]], 0);
+    }
+    if cont == "gz-emptyfirst" {
+        return gz_members(&[&[], text], 6);
     }
     if cont == "gz3-emptymid" {
         return gz_members(&[&text[..bounds[0]], &[], &text[bounds[0]..]], 6);
@@ -963,7 +979,7 @@ pub fn c08(ctx: &mut Ctx) {
         }
     }
     let alt: Vec<Vec<u8>> = vec![b"ACAC".to_vec(), b"CCA".to_vec(), b"AAAAAA".to_vec()];
-    let cfgs: [(usize, f64); 3] = [(1, 0.5), (2, 1.0), (4, 6.0)];
+    let cfgs: [(usize, f64); 5] = [(1, 0.5), (2, 1.0), (4, 6.0), (2, 1e-8), (1, 4e-9)];
     let mut sh = ctx.shard;
     let mut n = 0u64;
     for l in &lists {
@@ -1004,7 +1020,12 @@ pub fn c08(ctx: &mut Ctx) {
         for k in [1usize, 2, 3, 7] {
             for &(bs, bc) in &[(1usize, 1usize), (1, 3), (2, 3), (5, 5), (16, 16), (10, 2)] {
                 for norm in [true, false] {
-                    for &(threads, mem) in &[(1usize, 0.5f64), (3, 0.99), (8, 6.0), (16, 128.0)] {
+                    for &(threads, mem) in &[(1usize, 0.5f64), (3, 0.99), (8, 6.0), (16, 128.0), (2, 2e-7), (1, 1e-7)] {
+                        // ceilings of a few bases only on the small sets: the chunk x partition grid of temp files grows
+                        // with records x bases and would exhaust the scratch file system on the large ones
+                        if mem < 0.1 && recs.len() > 10 {
+                            continue;
+                        }
                         if !sh.mine() {
                             continue;
                         }
@@ -1050,7 +1071,7 @@ pub fn c08(ctx: &mut Ctx) {
         ctx.rep.sample("pipeline: records [\"ACA\",\"CN\"] k=2 bin-size=2 bin-count=2 raw, threads=2, memory=1.0".to_string());
         ctx.rep.sample("direct: table with multiplicities 1, bs*bc-1, bs*bc, bs*bc+1, 10^6, u32::MAX and absent k-mers; bin-size 2 x 5 bins".to_string());
         ctx.rep.sample("pipeline: [A x 50, \"AAC\", \"\", \"NNNN\"] k=3 bin-size=5 bin-count=5, flush per record (memory 0.5)".to_string());
-        ctx.rep.notes.push("C08: per-record routine on S5 strings x k 1..=3 x 6 bin shapes with synthetic tables; full pipeline on every single record over {A,C,T,N}^(<=3) and every pair over {A,T,N}^(<=2, thorough 3) (thorough: also triples over {A,G,N}^(<=2)) x k 1..=2 x 4 bin shapes x norm/raw x 3 (threads, memory) settings with same / different counting input; high-multiplicity and 200-record sets; compute_coverages on harness-written tables. 'flush every few records' is unreachable (threshold is whole GiB of bases): only per-record (memory<1) and single-batch flushing exist".to_string());
+        ctx.rep.notes.push("C08: per-record routine on S5 strings x k 1..=3 x 6 bin shapes with synthetic tables; full pipeline on every single record over {A,C,T,N}^(<=3) and every pair over {A,T,N}^(<=2, thorough 3) (thorough: also triples over {A,G,N}^(<=2)) x k 1..=2 x 4 bin shapes x norm/raw x 5 (threads, memory) settings (incl. ceilings of a few bases: the counting step then runs in several chunks) with same / different counting input; high-multiplicity and 200-record sets; compute_coverages on harness-written tables. 'flush every few records' is unreachable (threshold is whole GiB of bases): only per-record (memory<1) and single-batch flushing exist".to_string());
     }
 }
 
